@@ -147,12 +147,12 @@ PROPS["C13"] = {
     "undecided": ["whole-history coherence for all histories", "concluded data across modules", "auto-import index"],
 }
 PROPS["C09"] = {
-    "sidecars": ["c09_effects.py", "c10_change.py", "c11_leaves.py", "c09_operations.py", "c09_resources.py"],
+    "sidecars": ["c09_effects.py", "c10_change.py", "c11_leaves.py", "c09_operations.py", "c09_resources.py", "c09_rename.py"],
     "level": "exploration",
     "claim": "Mostly a bounded check with an effect monitor: every offset x 12 refactorings computes its changes with every disk mutator intercepted and the disk "
              "snapshot compared; scenarios check announced == touched, inside the project, never ignored.  Deductive kernel: ChangeSet.get_changed_resources "
              "announces everything its children announce (loop invariant), and a composite's effect is its children's effects (C10 contracts)."
-             " Also proved: every leaf announces what its do() touches (lemmas over a file-system map), _ResourceOperations.move/remove/create issue exactly one file-system call and tell every observer once, ignored resources bypass version control, Resource mutators go through one change set and project.do.",
+             " Also proved: every leaf announces what its do() touches (lemmas over a file-system map), _ResourceOperations.move/remove/create issue exactly one file-system call and tell every observer once, ignored resources bypass version control, Resource mutators go through one change set and project.do. Rename moves the module itself only when the caller listed it (a package through its __init__.py) and to <same folder>/<new name>[.py], as exactly one added change (Rename._is_allowed_to_move, _rename_module).",
     "note": "no contract within reach states 'get_changes of every refactoring has no disk effect' for all requests (dynamic dispatch over the whole refactoring "
             "package); the monitor sees only the executions of the bounded domain.",
     "undecided": ["purity for all requests", "preview text == written text"],
